@@ -95,9 +95,11 @@ func init() {
 			defer a.runtime.releaseScope()
 
 			a.runtime.blocks = t.processedBlocks
+			// like include: render the root ancestor of the extends chain
 			root := t.Root
-			if t.extends != nil {
-				root = t.extends.Root
+			for base := t; base.extends != nil; {
+				base = base.extends
+				root = base.Root
 			}
 
 			if a.NumOfArguments() > 1 {
@@ -125,9 +127,11 @@ func init() {
 			a.runtime.Writer = ioutil.Discard
 
 			a.runtime.blocks = t.processedBlocks
+			// like include: render the root ancestor of the extends chain
 			root := t.Root
-			if t.extends != nil {
-				root = t.extends.Root
+			for base := t; base.extends != nil; {
+				base = base.extends
+				root = base.Root
 			}
 
 			if a.NumOfArguments() > 1 {
